@@ -893,6 +893,11 @@ func pragmaTable(c *core.Ctx, s *core.Sink, pre *ssa.Function) {
 		s.Und(key, c.Pos(pre.Pos()), "needPragma codes for the charset / content attributes not recognised")
 		return
 	}
+	// the two attributes set different states (with one code for both, the table below would be checked against itself)
+	if cCharset == cContent {
+		s.Bad(key, c.Pos(pre.Pos()), fmt.Sprintf("the content attribute and the charset attribute set the same prescan state (%d): a label found in a content attribute is then accepted without http-equiv=content-type (a <meta name=description content=\"... charset=x\"> overrides the real declaration)", cContent))
+		return
+	}
 	// helper form: the per-tag decision is a function returning (label, accepted); its caller returns the label iff accepted
 	helperMode := false
 	if rs := pre.Signature.Results(); rs.Len() == 2 && !hasTokenizerNextFn(pre) {
